@@ -367,3 +367,65 @@ Section Reenc.
     | _ => v
     end.
 End Reenc.
+
+(* the declared element types of the EMPTY containers among the known fields have a wire type (reenc announces the
+   declared element type; for a non-empty container it is the announced one by evo_dom) *)
+Section EmptyElems.
+  Variable S : schema.
+  (* the declared element types of the EMPTY containers among the known fields have a wire type *)
+  Fixpoint empty_elems_ok (t : ty) (v : tval) {struct v} : bool :=
+    match v with
+    | VList _ l =>
+        match resolve S t with
+        | TyList et =>
+            match l with [] => ttype_ok S et | _ :: _ => true end &&
+            (fix go (l : list tval) : bool := match l with [] => true | x :: r => empty_elems_ok et x && go r end) l
+        | _ => true
+        end
+    | VSet _ l =>
+        match resolve S t with
+        | TySet et =>
+            match l with [] => ttype_ok S et | _ :: _ => true end &&
+            (fix go (l : list tval) : bool := match l with [] => true | x :: r => empty_elems_ok et x && go r end) l
+        | _ => true
+        end
+    | VMap _ _ l =>
+        match resolve S t with
+        | TyMap kt vt =>
+            match l with [] => ttype_ok S kt && ttype_ok S vt | _ :: _ => true end &&
+            (fix go (l : list (tval * tval)) : bool :=
+               match l with [] => true | (a, b) :: r => empty_elems_ok kt a && empty_elems_ok vt b && go r end) l
+        | _ => true
+        end
+    | VStruct fs =>
+        match resolve S t with
+        | TyRef n =>
+            match lookup S n with
+            | Some (DStruct dfs _ _) =>
+                (fix go (fs : list (Z * tval)) : bool :=
+                   match fs with
+                   | [] => true
+                   | (id, x) :: r =>
+                       match match_field S dfs O (Some id) (ttype_of x) with
+                       | Some (_, f) => empty_elems_ok (f_ty f) x
+                       | None => true
+                       end && go r
+                   end) fs
+            | Some (DUnion vs _ _) =>
+                (fix go (fs : list (Z * tval)) : bool :=
+                   match fs with
+                   | [] => true
+                   | (id, x) :: r =>
+                       match variant_by_id S vs id with
+                       | Some vt => empty_elems_ok vt x
+                       | None => true
+                       end && go r
+                   end) fs
+            | _ => true
+            end
+        | _ => true
+        end
+    | _ => true
+    end.
+
+End EmptyElems.
